@@ -181,7 +181,12 @@ namespace ratio
 
 #if defined(VERBOSE_LOG) || defined(BUILD_LISTENERS)
   public:
-    const std::string &guess_name(const item &itm) const noexcept { return expr_names.at(&itm); }
+    const std::string &guess_name(const item &itm) const noexcept
+    { // an item no chain of names leads to (an enum value, an object created inside a rule, ..) has the empty name..
+      static const std::string no_name;
+      const auto at_itm = expr_names.find(&itm);
+      return at_itm == expr_names.cend() ? no_name : at_itm->second;
+    }
 
   private:
     void recompute_names() noexcept;
